@@ -316,6 +316,24 @@ def f16_save_atomic(ctx, repo):
     ctx.ob("F16", f.where, "self._save(tmp) with tmp = BytesIO()", ok, "" if ok else "TTFont.save no longer compiles into a memory buffer")
 
 
+
+def touch_no_truncate(ctx, repo):
+    ctx.rule("F16t", "a file that is only 'touched' to reserve its name (open(...).close() with nothing written) is opened in a non-truncating mode: the real write happens later and may fail, and an existing destination must survive that", floor=1)
+    for rel in sorted(repo.rels()):
+        mod = repo.mod(rel)
+        for c in calls_in(mod.tree):
+            if isinstance(c.func, ast.Attribute) and c.func.attr == "close" and isinstance(c.func.value, ast.Call) and (call_name(c.func.value) or "").split(".")[-1] == "open":
+                o = c.func.value
+                mode = None
+                if len(o.args) >= 2:
+                    mode = try_fold(o.args[1])
+                for k in o.keywords:
+                    if k.arg == "mode":
+                        mode = try_fold(k.value)
+                ok = isinstance(mode, str) and "w" not in mode and ("a" in mode or "x" in mode)
+                ctx.ob("F16t", f"{rel}:{_func_qual_of(mod, c)}", norm(c), ok, "" if ok else f"mode {mode!r} truncates an existing file before anything is known to succeed")
+
+
 def _header_exprs(st):
     """Expressions evaluated *at* a CFG node (header only for compound statements)."""
     if isinstance(st, ast.If) or isinstance(st, ast.While):
@@ -632,4 +650,4 @@ def f15_path_taint(ctx, repo):
     ctx.info["write_sinks"] = n
 
 
-ALL = [f14_no_eval, f15_path_taint, f16_save_atomic, f17_err_type, f18_fallback, xml_parser_config]
+ALL = [f14_no_eval, f15_path_taint, f16_save_atomic, touch_no_truncate, f17_err_type, f18_fallback, xml_parser_config]
